@@ -1,6 +1,7 @@
 """C07 — slices select exactly the elements of the specified start:stop:step rule."""
 import re
 from .. import slicecheck
+from ..analysis import strip_through
 from ..analysis import Branches, Origins, edge_dominates, fmt_terms, reach_avoiding
 from ..parsing import AST, P, region_aggs
 
@@ -119,23 +120,21 @@ def check_guards(ctx, lib):
     # Variable::slice = as_array().map(|a| slice(a, start, stop, step))
     vs = ctx.fn("variable::Variable::slice", rule=rule)
     if vs is not None:
+        # spelling-independent: the slice routine runs once, on the array view of self with the three parts passed through;
+        # the result is Some(that) for an array and None (the absent array view itself) otherwise
         vo = Origins(vs, lib)
-        calls = [t for _, t in vs.calls()]
-        names = [t["callee"] for t in calls]
-        ok = names == ["variable::Variable::as_array", "std::option::Option::<T>::map"] and vo.of_operand(calls[0]["args"][0]) == {("param", 1)}
-        clo = lib.closures_of("variable::Variable::slice")
-        ok = ok and len(clo) == 1
+        cc = [t for _, t in vs.calls() if t["callee"] == "variable::slice"]
+        ok = len(cc) == 1
         if ok:
-            c = clo[0]
-            co = Origins(c, lib)
-            cc = [t for _, t in c.calls() if t["callee"] == "variable::slice"]
-            ok = len(cc) == 1
-            if ok:
-                a = [co.of_operand(x) for x in cc[0]["args"]]
-                env = ("closure_env",)
-                ok = a[0] == {("param", 2)} and a[1] == {("field", env, "0")} and a[2] == {("field", env, "1")} and a[3] == {("field", env, "2")}
-                cap = [x for x in vo.of_operand(calls[1]["args"][1]) if x[0] == "closure"]
-                ok = ok and len(cap) == 1 and cap[0][2] == (fs({("param", 2)}), fs({("param", 3)}), fs({("param", 4)}))
+            a = [vo.of_operand(x) for x in cc[0]["args"]]
+            arr = ("view", "array", ("param", 1))
+            ok = a[0] == {arr} and a[1] == {("param", 2)} and a[2] == {("param", 3)} and a[3] == {("param", 4)}
+            for t in vo.of_local(0):
+                if strip_through(t) == arr or (t[0] == "agg" and t[1] == "std::option::Option::None"):
+                    continue
+                if t[0] == "agg" and t[1] == "std::option::Option::Some" and t[2][0] and all(x[0] == "call" and x[1] == "variable::slice" for x in t[2][0]):
+                    continue
+                ok = False
         ctx.check(ok, rule, "variable-slice", "Variable::slice = self.as_array().map(|a| slice(a, start, stop, step))", vs.span)
 
 
